@@ -75,6 +75,8 @@ def gen_history(rng, n, ndirs, length):
             wrappers.append({'dir': d, 'holders': 1, 'alive': True, 'clear': clear})
         elif k == 'get':
             ops.append({'k': 'get', 'w': rng.choice(alive), 'i': rng.randrange(n)})
+            if rng.random() < 0.35:
+                ops[-1]['by_key'] = True          # the same example looked up by its key
         elif k == 'next':
             live = [i for i, (w, pos) in iters.items() if wrappers[w]['alive'] and pos < n]
             if live and rng.random() < 0.75:
@@ -169,7 +171,7 @@ def oracle(n, ops, outs, exists_after=None):
 
 def model_request(n, ndirs, ops):
     # a step of an iteration in flight is, for the model, the access `ds[position]`
-    ops = [({'k': 'get', 'w': o['w'], 'i': o['i']} if o['k'] == 'next' else o) for o in ops]
+    ops = [({'k': 'get', 'w': o['w'], 'i': o['i']} if o['k'] in ('next', 'get') else o) for o in ops]
     return {'fam': 'disk', 'n': n, 'ndirs': ndirs, 'ops': ops}
 
 
